@@ -210,6 +210,11 @@ func (i *interpreter) symBinop(op token.Token, x, y value) value {
 			if r, ok := i.cmpIntConv(o, a, b); ok {
 				return r
 			}
+			// one side a literal, the other a decision tree over literals (a parse table): decide
+			// the comparison at the leaves natively instead of handing the tree to the solver
+			if r, ok := i.cmpLitTree(o, a, b, k); ok {
+				return r
+			}
 			return i.boolSym(c.App(o, sym.Bool, a, b))
 		}
 		switch op {
@@ -229,6 +234,9 @@ func (i *interpreter) symBinop(op token.Token, x, y value) value {
 		case token.NEQ:
 			if a == b {
 				return i.boolSym(c.IsNaN(a))
+			}
+			if r, ok := i.cmpLitTree("fp.eq", a, b, k); ok {
+				return i.notV(r)
 			}
 			return i.boolSym(c.Not(c.App("fp.eq", sym.Bool, a, b)))
 		case token.QUO:
@@ -837,4 +845,50 @@ func (i *interpreter) cmpIntConv(op string, a, b *sym.Term) (value, bool) {
 		cmpOp = "bvult"
 	}
 	return i.boolSym(c.App(cmpOp, sym.Bool, x, T)), true
+}
+
+// cmpLitTree: a floating-point comparison between a literal and an ite-tree whose leaves are
+// literals is lifted to the leaves (IEEE semantics of Go's native comparison).
+func (i *interpreter) cmpLitTree(op string, a, b *sym.Term, k types.BasicKind) (value, bool) {
+	c := i.ctx()
+	tree, lit, swapped := a, b, false
+	if a.IsConst() && !b.IsConst() {
+		tree, lit, swapped = b, a, true
+	}
+	if !lit.IsConst() || tree.Op != "ite" {
+		return nil, false
+	}
+	f := func(t *sym.Term) float64 {
+		if t.Sort == sym.F32 {
+			return float64(math.Float32frombits(uint32(t.CBits)))
+		}
+		return math.Float64frombits(t.CBits)
+	}
+	lv := f(lit)
+	r, ok := c.LiftUnary(tree, func(leaf *sym.Term) *sym.Term {
+		x, y := f(leaf), lv
+		if swapped {
+			x, y = y, x
+		}
+		var res bool
+		switch op {
+		case "fp.lt":
+			res = x < y
+		case "fp.leq":
+			res = x <= y
+		case "fp.gt":
+			res = x > y
+		case "fp.geq":
+			res = x >= y
+		case "fp.eq":
+			res = x == y
+		default:
+			return nil
+		}
+		return c.BoolLit(res)
+	})
+	if !ok || r == nil {
+		return nil, false
+	}
+	return i.boolSym(r), true
 }
